@@ -28,6 +28,15 @@ def setup():
 setup()
 LIB = X + "/repo/bindgen/lib.rs"
 ORIG = open("/repo/bindgen/lib.rs").read()
+def swap_wait_and_drain(src):
+    """`child.wait()` (with its hook event) before the io::copy that drains stdout (with its hook event)."""
+    a = src.index("        let mut output = vec![];\n        io::copy(&mut child_stdout")
+    b = src.index("        let status = child.wait()?;")
+    c = src.index("        let source = stdin_handle.join()")
+    assert a < b < c
+    return src[:a] + src[b:c] + src[a:b] + src[c:]
+
+
 MUTANTS = {
  "M0-unchanged": [],
  "M1-exit1-accepted": [("Some(0) => Ok(bindings),", "Some(0) | Some(1) => Ok(bindings),")],
@@ -37,18 +46,8 @@ MUTANTS = {
         });""", """        let _ = child_stdin.write_all(source.as_bytes());
         drop(child_stdin);
         let stdin_handle = ::std::thread::spawn(move || source);""")],
- "M3-wait-before-drain": [("""        let mut output = vec![];
-        io::copy(&mut child_stdout, &mut output)?;
-
-        let status = child.wait()?;""", """        let status = child.wait()?;
-        let mut output = vec![];
-        io::copy(&mut child_stdout, &mut output)?;""")],
- "M4-fallback-writes-nothing": [("""                writer.write_all(self.module.to_string().as_bytes())?;
-            }
-        }
-        Ok(())""", """            }
-        }
-        Ok(())""")],
+ "M3-wait-before-drain": [swap_wait_and_drain],
+ "M4-fallback-writes-nothing": [("                writer.write_all(self.module.to_string().as_bytes())?;\n", "")],
  "M5-writer-unwraps-epipe": [("let _ = child_stdin.write_all(source.as_bytes());", "child_stdin.write_all(source.as_bytes()).expect(\"write to rustfmt\");")],
  "M6-error-propagated": [("""            Err(err) => {
                 eprintln!(""", """            Err(err) => {
@@ -70,7 +69,11 @@ for name, edits in MUTANTS.items():
     if only and name.split("-")[0] not in only:
         continue
     src = ORIG
-    for a, b in edits:
+    for e in edits:
+        if callable(e):
+            src = e(src)
+            continue
+        a, b = e
         assert src.count(a) == 1, (name, a)
         src = src.replace(a, b)
     open(LIB, "w").write(src)
